@@ -356,8 +356,17 @@ func (b *buf) stmts(list []ast.Stmt, ind string) string {
 			return "some " + b.name
 		}
 	case *ast.IfStmt:
-		if v.Init == nil && v.Else == nil {
-			return "if " + b.t.expr(v.Cond) + " then\n" + ind + "  " + b.stmts(append(append([]ast.Stmt{}, v.Body.List...), rest...), ind+"  ") + "\n" + ind + "else\n" + ind + "  " + b.stmts(rest, ind+"  ")
+		if v.Init == nil {
+			var elsePart string
+			switch el := v.Else.(type) {
+			case nil:
+				elsePart = b.stmts(rest, ind+"  ")
+			case *ast.BlockStmt:
+				elsePart = b.stmts(append(append([]ast.Stmt{}, el.List...), rest...), ind+"  ")
+			case *ast.IfStmt:
+				elsePart = b.stmts(append([]ast.Stmt{el}, rest...), ind+"  ")
+			}
+			return "if " + b.t.expr(v.Cond) + " then\n" + ind + "  " + b.stmts(append(append([]ast.Stmt{}, v.Body.List...), rest...), ind+"  ") + "\n" + ind + "else\n" + ind + "  " + elsePart
 		}
 	case *ast.SwitchStmt:
 		if v.Init == nil && v.Tag == nil {
